@@ -886,27 +886,11 @@ def _may_raise(s: ast.stmt) -> bool:
 _cache: dict[tuple, list[Path]] = {}
 
 
-_in_progress: set = set()
-SPLICE_ALL = bool(os.environ.get("TLVERIF_SPLICE_ALL"))
-
-
 def paths_of(prog: Program, func: FuncInfo, outer_env: dict | None = None) -> list[Path]:
     key = (id(prog), func.qualname, id(outer_env) if outer_env else 0, func.bound.qualname if func.bound else None)
     if key not in _cache:
         pe = PathEnumerator(prog, func, outer_env)
-        ps = _expand_super(prog, func, pe.paths())
-        if SPLICE_ALL and key not in _in_progress and len(ps) <= 400:
-            _in_progress.add(key)
-            try:
-                spliced = splice_helpers(prog, ps)
-                if len(spliced) <= 1500:
-                    ps = spliced
-            finally:
-                _in_progress.discard(key)
-        else:
-            if key in _in_progress:
-                return ps  # (a helper that calls itself: its inner occurrence stays a call)
-        _cache[key] = ps
+        _cache[key] = _expand_super(prog, func, pe.paths())
     return _cache[key]
 
 
@@ -1016,7 +1000,7 @@ def splice_helpers(prog: Program, paths: list[Path], _depth: int = 0, cls=None, 
                     mn, _, nm = x[1][1].rpartition(".")
                     mod = prog.modules.get(mn)
                     fi = mod.functions.get(nm) if mod else None
-                    if fi is not None and nm.startswith("_") and not nm.startswith("__") and not fi.node.decorator_list and not any(a[0] == "star" for a in x[2]) and not (SPLICE_ALL and (x[1][1] in NOT_INLINED or _is_generator(fi))):
+                    if fi is not None and nm.startswith("_") and not nm.startswith("__") and not fi.node.decorator_list and not any(a[0] == "star" for a in x[2]) and (only is None or only(fi)):
                         call = (x, fi)
                         break
                 # ... and, for the methods of `cls`, its own private undecorated methods called on self
